@@ -132,6 +132,10 @@ enum Op {
     Opt(u16, Vec<(u16, usize)>, Vec<HdrSet>),
     /// The sink gets more room (as after the caller grew the buffer).
     Heal(usize),
+    /// The same small record pushed this many times in a row (an unbounded
+    /// target: more than a 16-bit count can say; the push that would wrap
+    /// the count has to be refused).
+    PushMany(Item, usize),
     /// Header flags set through `header_mut()`: AA, TC, RD, RA, AD, CD (bits
     /// 0-5). They stay as set whatever is pushed, refused or rolled back.
     Flags(u8),
@@ -641,6 +645,37 @@ fn execute<T: Composer>(pool: &[String], ops: &[Op], ctl: &SinkCtl, stream: bool
             Op::SetLimit(l) => st.mb().set_push_limit(*l),
             Op::ClearLimit => st.mb().clear_push_limit(),
             Op::Heal(extra) => ctl.cap.set(ctl.cap.get() + extra),
+            Op::PushMany(item, n) => {
+                let sec = st.section();
+                if !matches!((sec, item), (0, Item::Question(..)) | (1..=3, Item::Record(..))) {
+                    lens.push(ctl.bytes.borrow().len());
+                    continue;
+                }
+                let mut ok = 0usize;
+                let mut len_before_refusal = None;
+                for _ in 0..*n {
+                    let l = ctl.bytes.borrow().len();
+                    match st.push(pool, item) {
+                        Ok(()) => ok += 1,
+                        Err(_) => {
+                            len_before_refusal = Some(l);
+                            break;
+                        }
+                    }
+                }
+                for _ in 0..ok {
+                    model.items.push((sec, item.clone()));
+                }
+                sim::stat("probe.same_record_pushed_tens_of_thousands_of_times");
+                if let Some(l) = len_before_refusal {
+                    sim::stat("fault.push_failed");
+                    let now = ctl.bytes.borrow().len();
+                    if now != l {
+                        sim::violation(P, "failed-push-atomic", format!("octets-changed/{}", label), format!("op #{} {:?}: push {} of the series was refused but the message went from {} to {} octets", i, op, ok + 1, l, now));
+                        return None;
+                    }
+                }
+            }
             Op::Flags(f) => {
                 let h = st.mb().header_mut();
                 h.set_aa(f & 1 != 0);
@@ -890,6 +925,22 @@ fn gen_ops(pool: &[String], size_class: u64) -> Vec<Op> {
             }
         }
     }
+    if size_class == 5 && sim::chance("ops.count_wrap", 1, 8) {
+        // An unbounded target and more records of one section than a 16-bit
+        // count can say: 65535 go in, the next one is refused.
+        ops.clear();
+        let (sec, item) = if sim::chance("ops.count_wrap_questions", 1, 3) {
+            (0u8, Item::Question(pool.iter().position(|n| n == ".").unwrap_or(0), Rtype::A, 1))
+        } else {
+            (1 + sim::draw("ops.count_wrap_section", 3) as u8, Item::Record(pool.iter().position(|n| n == ".").unwrap_or(0), 60, RData::A(9)))
+        };
+        for _ in 0..sec {
+            ops.push(Op::NextSection);
+        }
+        ops.push(Op::PushMany(item.clone(), 65_530 + sim::draw("ops.count_wrap_n", 12) as usize));
+        ops.push(Op::Push(item));
+        return ops;
+    }
     if size_class == 5 {
         // An unbounded target and an OPT record whose options add up to more
         // than an RDLENGTH can say: the push has to be refused (and rolled
@@ -1027,6 +1078,19 @@ fn run(tier: Tier) {
     let total = lens.iter().copied().max().unwrap_or(0);
     if total > 0x3FFF {
         sim::stat("probe.message_beyond_pointer_limit");
+    }
+    // (A series of tens of thousands of pushes is re-run at a few fault
+    // points only: around the end, where the count is about to wrap.)
+    if ops.iter().any(|o| matches!(o, Op::PushMany(..))) {
+        let mut n_points = 0u64;
+        for k in [total.saturating_sub(1), total, total.saturating_sub(16), total / 2] {
+            if sim::stopped() || exec!(k, None).is_none() {
+                return;
+            }
+            n_points += 1;
+        }
+        sim::stat_add("counter.fault_points", n_points);
+        return;
     }
     // Enumerate the fault points.
     let dense = if tier == Tier::Quick { 600 } else { 1500 };
